@@ -432,8 +432,18 @@ def d3_wiring(ctx):
                bad_detail=f"root-finding function `{shown}` does not vary exactly the eqps slot of the residual with (trial strain, old eqps, dt, props, hardening) in the other slots")
     # the energy closure and the incremental potential share flow direction and hardening slots
     ed = ctx.need(f"{J2}:_energy_density")
-    txt = src(ed.node)
-    ok = "hardening_model[ENERGY_DENSITY](eqpsNew, state[EQPS], dt)" in txt and "elastic_free_energy(elasticStrainNew, props)" in txt
+    from .common import Unifier
+    ue = Unifier(ed)
+    e_ = ed.params()     # elStrain, state, dt, props, hardening_model
+    a1 = ue.assigns(f"compute_state_increment({e_[0]}, {e_[1]}, {e_[2]}, {e_[3]}, {e_[4]})", target="stateInc")
+    a2 = ue.assigns(f"{e_[1]}[EQPS] + stateInc[EQPS]", target="eqpsNew")
+    a3 = ue.assigns(f"{e_[0]} - stateInc[PLASTIC_DISTORTION].reshape((3, 3))", target="elasticStrainNew")
+    want_w = f"elastic_free_energy(elasticStrainNew, {e_[3]}) + {e_[4]}[ENERGY_DENSITY](eqpsNew, {e_[1]}[EQPS], {e_[2]})"
+    rr_ = ed.returns()
+    okw = False
+    if len(rr_) == 1:
+        okw = ue.match(rr_[0], want_w) or (isinstance(rr_[0], ast.Name) and len(ue.assigns(want_w, target="W")) == 1 and rr_[0].id == ue.actual("W"))
+    ok = len(a1) == 1 and len(a2) == 1 and len(a3) == 1 and okw
     ctx.decide(rule, ok, ed, None, construct="energy-evaluated-at-updated-state", detail="W = elastic_free_energy(trial - d_plastic) + hardening(eqps_new, eqps_old, dt)",
                bad_detail="_energy_density does not evaluate the elastic energy at the updated elastic strain plus the hardening potential at (eqps_new, eqps_old, dt)")
 
